@@ -243,6 +243,12 @@ def verify_contract(con, contracts, tier="quick", externals=None):
     except KeyError as e:
         res.error, res.error_kind = "function not found: %s" % e, "missing"
         return res
+    for key in con.modular:
+        if key not in contracts:
+            res.error, res.error_kind = "modular contract %s is not loaded" % key, "crash"
+            return res
+        if contracts[key].node is None:
+            contracts[key].bind()
     res.sha = con.mod.sha(con.node)
     res.file = con.mod.path
     res.lineno = con.node.lineno
@@ -253,6 +259,9 @@ def verify_contract(con, contracts, tier="quick", externals=None):
         opts["yield_shape"] = con.yield_shape
     if con.ghost_asserts:
         opts["ghost_asserts"] = con.ghost_asserts
+    if con.ghost_updates:
+        opts["ghost_updates"] = con.ghost_updates
+        opts["ghost_shapes"] = con.ghost_vars
     E = Engine(con.mod, con.node, con.clsnode, con.name, con.spec_mod, contracts,
                raises=set(con.raises_nodes), loops=con.loops, bv=con.bv, modular=con.modular,
                externals=dict(externals or {}, **getattr(con.cls, "externals", {})), options=opts)
@@ -261,6 +270,8 @@ def verify_contract(con, contracts, tier="quick", externals=None):
         E.options["entry"] = dict(env)
         is_gen = any(isinstance(n, (ast.Yield, ast.YieldFrom)) for n in walk_own(con.node))
         st = State(dict(env), facts, ListV([]) if is_gen else None, ListV([]))
+        for gname, gshape in (con.ghost_vars or {}).items():
+            st.ghost[gname] = ListV([]) if isinstance(gshape, TSeq) else 0
         argmap = dict(env)
         if con.requires_node is not None:
             pre = E.eval_spec(con.requires_node, con, argmap, st)
@@ -316,6 +327,12 @@ def verify_contract(con, contracts, tier="quick", externals=None):
                         for p in names:
                             amap[p + "_post"] = s_out.env.get(p)
                         amap["_trace"] = s_out.trace
+                        for ln, lv in s_out.env.items():
+                            if not ln.startswith("__"):
+                                amap.setdefault("local_" + ln, lv)
+                        for gn, gv in s_out.ghost.items():
+                            if not gn.startswith("_"):
+                                amap.setdefault(gn, gv)
                         goal = ops._tb(truth(E.eval_spec(rn, con, _select(rn, amap), s_out)))
                     ob = _mk(E, s_out, "raise", None, goal, con, "raise/" + label, env)
                 else:
@@ -330,12 +347,17 @@ def verify_contract(con, contracts, tier="quick", externals=None):
                 items = result.items if isinstance(result, ListV) else result
                 result = seqs.to_seq(ListV(items), rs.elem) if items else SeqV(0, rs.elem, [z3.K(z3.IntSort(), _dflt(l)) for l in shape_leaves(rs.elem)], rs.kind)
             amap = dict(argmap)
+            for p_, v_ in argmap.items():
+                amap["old_" + p_] = v_
             amap["result"] = result
             for p in names:
                 amap[p + "_post"] = s_out.env.get(p)
             for ln, lv in s_out.env.items():
                 if not ln.startswith("__"):
                     amap.setdefault("local_" + ln, lv)
+            for gn, gv in s_out.ghost.items():
+                if not gn.startswith("_"):
+                    amap.setdefault(gn, gv)
             amap["_trace"] = s_out.trace
             amap["_yielded"] = s_out.yielded
             amap["_rand"] = tuple(v for _, v in s_out.rand)
@@ -343,7 +365,7 @@ def verify_contract(con, contracts, tier="quick", externals=None):
                 goal = E.eval_spec(en, con, _select(en, amap), s_out)
                 _mk(E, s_out, "post", None, ops._tb(truth(goal)) if not isinstance(goal, bool) else goal, con, "post/" + label, env)
         res.notes = list(E.notes)
-        for text in (con.ghost_asserts or {}):
+        for text in list(con.ghost_asserts or {}) + list(con.ghost_updates or {}):
             if text not in E._ghost_hits:
                 raise EngineError("ghost assertion anchored on a statement that no longer exists: %r" % text)
         if reach["return"] == 0 and con.ensures_nodes:
